@@ -38,6 +38,34 @@ theorem C27_chunking_sound (i : HIn) (hc : (decideHeader i).chunking = true) :
     beq_eq_false_iff_ne] at hc
   exact ⟨hc.2, hc.1.1.1.1, hc.1.1.2, hc.1.1.1.2⟩
 
+/-! ### Layers of `C27_parses` (reference parser applied to the rendered bytes)
+
+  Proved so far, each at full strength for its layer; NOT yet proved: the header-block layer
+  (`parseHeaderLines` of the rendered lines), the chunked layer (`dechunk` of the rendered chunks, needs a
+  `parseHexLine (hexNat n) = some n` lemma) and the composition into
+  `rfcResponse isHead (render s) = some ⟨…, status, lines, body = accepted writes, rest = [], complete⟩`.
+  Until then that clause is exercised by the driver on every case and by the `verdictOf … = "ok"` examples. -/
+
+/-- line layer: the reference parser's line splitter returns any CR-free line of the rendered head
+    unchanged and continues right behind its CRLF. -/
+theorem C27_parses_layer_line (l t : Bytes) (h : ∀ b ∈ l, b ≠ 13) :
+    takeLine (l ++ crlf ++ t) [] = some (l, t) := by
+  have := takeLine_append l t [] h
+  simpa [crlf] using this
+
+/-- status-line layer: for every status 100..999 and both versions the emitted status line parses back
+    to exactly (version, status). -/
+theorem C27_parses_layer_status (p11 : Bool) (code : Nat) (h1 : 100 ≤ code) (h2 : code ≤ 999) :
+    parseStatusLine (statusLine p11 code) = some (p11, code) :=
+  parseStatusLine_statusLine p11 code h1 h2
+
+/-- Content-Length layer: if the bytes after the head are a payload of exactly the announced length
+    followed by `rest`, the recipient's body is that payload and `rest` is what remains. -/
+theorem C27_parses_layer_cl (payload rest : Bytes) :
+    (payload ++ rest).take payload.length = payload ∧ (payload ++ rest).drop payload.length = rest ∧
+    decide (payload.length ≤ (payload ++ rest).length) = true := by
+  refine ⟨(cl_body payload rest).1, (cl_body payload rest).2, by simp⟩
+
 /-! ### Witnesses: the full statement fails on the unchanged code (replayed in corpus/C27/known.ops) -/
 
 def get11 : Req := { isHead := false, proto11 := true, conn := "", clNonZero := false, bodyLeft := 0 }
@@ -54,6 +82,42 @@ theorem C27_witness_204 :
 theorem C27_witness_1xx :
     ¬ NothingAfterHead (respond get11 true [.writeHeader 101, .flush]) ∧
     (respond get11 true [.writeHeader 101, .flush]).chunking = true := by decide
+
+/-- the verdict of the SPEC oracle on the model's own bytes -/
+def verdictOf (rq : Req) (script : List Act) : String :=
+  judge rq.isHead script (respond rq true script).close (respond rq true script).writeRes
+    (render (respond rq true script))
+
+/-! The full statement `∀ rq script, verdictOf rq script = "ok"` is false in five ways (one theorem per
+    known-finding class; each op is replayed on the real code from corpus/C27/known.ops). -/
+set_option maxRecDepth 16000 in
+theorem C27_witness_204_bytes : verdictOf get11 [.writeHeader 204, .write [97]] = "FAIL:body-after-204" := by decide
+set_option maxRecDepth 16000 in
+theorem C27_witness_1xx_bytes : verdictOf get11 [.writeHeader 101, .flush] = "FAIL:body-after-1xx" := by decide
+set_option maxRecDepth 16000 in
+/-- a handler-set `Transfer-Encoding: chunked` is emitted next to the server's own -/
+theorem C27_witness_te_twice :
+    verdictOf get11 [.set "Transfer-Encoding" "chunked", .writeHeader 200] = "FAIL:te-chunked-twice" := by decide
+set_option maxRecDepth 16000 in
+/-- an invalid Content-Length survives in the cloned header and reaches an HTTP/1.0 client -/
+theorem C27_witness_bad_cl :
+    verdictOf { get11 with proto11 := false } [.set "Content-Length" "abc", .writeHeader 200]
+      = "FAIL:bad-content-length" := by decide
+set_option maxRecDepth 16000 in
+/-- 304 drops the handler's Content-Type -/
+theorem C27_witness_304_ct :
+    verdictOf get11 [.set "Content-Type" "text/html", .writeHeader 304] = "FAIL:hdr-dropped-304-content-type" := by decide
+
+/-! Non-vacuity of the full statement: ordinary exchanges get verdict `ok` (chunked with two chunks,
+    HTTP/1.0 keep-alive with Content-Length, HEAD, until-close on HTTP/1.0). -/
+set_option maxRecDepth 16000 in
+example : verdictOf get11 [.set "Content-Type" "text/html", .writeHeader 200, .write [97, 98], .flush, .write [99]] = "ok" := by decide
+set_option maxRecDepth 16000 in
+example : verdictOf { get11 with proto11 := false, conn := "keep-alive" } [.set "Content-Length" "2", .write [97, 98]] = "ok" := by decide
+set_option maxRecDepth 16000 in
+example : verdictOf { get11 with isHead := true } [.write [97, 98]] = "ok" := by decide
+set_option maxRecDepth 16000 in
+example : verdictOf { get11 with proto11 := false } [.flush, .write [97, 98]] = "ok" := by decide
 
 /-! Non-vacuity: ordinary exchanges. -/
 example : NothingAfterHead (respond get11 true [.writeHeader 204]) := by decide
